@@ -17,6 +17,8 @@ pub open spec fn sig_at(d: Seq<u8>, p: int, sig: u32) -> bool { inb(d, p, 4) && 
 //@include spec/extra_walk.rs
 //@include spec/parsed.rs
 //@include spec/zfd_views.rs
+//@include spec/dir_written.rs
+//@include spec/dir_parsed.rs
 //@include spec/text_roundtrip.rs
 //@include spec/roundtrip.rs
 } // verus!
